@@ -588,6 +588,31 @@ def run(ctx):
                 mech = "ct:snap-tolerance"
         except Exception:  # noqa: BLE001
             pass
+        if mech == "ct:circuit-bound":
+            # same mechanism decided by intervention (the emulation above does not reproduce the merging of adjacent rotations that happens before
+            # the snap): move every rotation angle that lies within 1.5e-6 of a multiple of pi/2 out of the 1e-6 window by 2e-5 and transform again;
+            # if that circuit is approximated within eps, the excess of the original came from the eps-independent snapping
+            try:
+                moved, hit, jj = [], False, 0
+                for o in tape.operations:
+                    if o.name in ("RX", "RY", "RZ", "PhaseShift"):
+                        a = float(np.real(_scalar(o.data[0])))
+                        q = a / (math.pi / 2)
+                        if abs(q - round(q)) * (math.pi / 2) < 1.5e-6 and abs(q - round(q)) > 0:
+                            jj += 1
+                            moved.append(type(o)(round(q) * (math.pi / 2) + 2e-5 * jj, wires=o.wires))
+                            hit = True
+                            continue
+                    moved.append(o)
+                if hit:
+                    t2 = qp.tape.QuantumScript(moved, tape.measurements)
+                    [new2], _ = qp.transforms.clifford_t_decomposition(t2, epsilon=eps, method=method, **kw)
+                    U2out, bad2 = tape_matrix(new2, wires)
+                    U2in, _ = bridge.tape_unitary(moved, wires)
+                    if not bad2 and opnorm_phase(U2out, U2in) <= eps * (1 + 1e-6) + 1e-9:
+                        mech = "ct:snap-tolerance"
+            except Exception:  # noqa: BLE001
+                pass
         viol("ct.circuit", f"clifford_t_decomposition(eps={eps:g}, method={method}): circuit unitary is {d:.3e} from the input in operator norm (up to phase) although every "
              f"approximated gate met its per-gate bound" + (" – explained by angles within 1e-6 of a multiple of pi being replaced by that multiple irrespective of eps"
                                                             if mech == "ct:snap-tolerance" else ""), info, mech, observed=d, expected=eps)
